@@ -17,7 +17,7 @@ from vf.refmodel import HEX_EDGES, HEX_SIDES, families
 warnings.simplefilter("ignore")
 
 TOL = 1e-7  # merge tolerance of the library: coincident corners of different operations may differ by that much
-HALF_ULP = 5.1e-9  # positions are printed with 8 decimals
+HALF_ULP = 5.1e-9  # positions are printed with 8 decimals (far from the origin the coordinate's own rounding is added)
 
 RULE = (
     "Programs of 1-3 entities (Box, lattice clusters of Lofts in any of the 24 numberings, Extrude, Revolve, Wedge, "
@@ -25,14 +25,19 @@ RULE = (
     "well-posed count chops (a c2c-graded chop now and then on single blocks), then 0-10 statements drawn from "
     "set_patch (name or list, any side), shape-level start/end/outer/inner patches, set_cell_zone, project_side "
     "(edges/points), project_edge, project_corner, add_geometry, merge_patches, set_default_patch, modify_patch, "
-    "settings[...], delete, in random order with mesh.add anywhere, and write(path, debug_path). The file is parsed "
+    "settings[...], delete (also single blocks of round shapes and spheres), in random order with mesh.add anywhere; "
+    "then optionally assemble / clear+assemble / backport / a first write, and write(path, debug_path); half of the "
+    "programs are placed 1e3..4e6 away from the origin. The file is parsed "
     "by vf.foamdict and compared section by section with the script-level model kept by the harness "
     "(vf.x_script.interpret). Non-trivial: >= 2 blocks written and >= 3 statements of >= 2 kinds; distinct = "
     "distinct generated program."
 )
 ASSUMPTIONS = [
     "positions: a hex label must point to a vertex within TOL + 5.1e-9 of the operation's corner, and every vertex "
-    "lies within 5.1e-9 of some corner that refers to it (8 printed decimals)",
+    "lies within 5.1e-9 of some corner that refers to it (8 printed decimals); 4 ulp of the largest coordinate are "
+    "added for models far from the origin",
+    "assemble, clear+assemble, backport (no vertex was moved) or an earlier write before the final write leave the "
+    "declared model unchanged",
     "side -> corner table is the OpenFOAM sketch (vf.refmodel.HEX_SIDES); a written quad must be that side's cycle "
     "started anywhere in either sense",
     "patches / projected faces are compared as sets of quads; if two operations project one shared face to different "
@@ -105,8 +110,26 @@ class Checker:
         for e, ent in enumerate(case["entities"]):
             if ent["kind"] == "hemisphere":
                 self.sphere_labels[e] = run.entities[e]
+        big = max(float(np.max(np.abs(p))) for p in self.points.values())
+        self.half = HALF_ULP + 4 * float(np.spacing(big))
+        # the user may (re-)assemble before writing - after moving vertices, say; the declared model is the same
+        finish = case.get("finish", "write")
+        self.f["finish"] = finish
+        mesh = run.mesh
         try:
-            text, vtk = lt.write_text(run.mesh, debug=True)
+            if finish != "write" and finish != "write-twice":
+                mesh.assemble()
+            if finish == "clear+assemble":
+                mesh.clear()
+                mesh.assemble()
+            elif finish == "backport":
+                mesh.backport()
+        except Exception as ex:
+            self.fail("script-failed", f"{finish} raised {type(ex).__name__}: {ex}", stage="finish")
+        try:
+            if finish == "write-twice":
+                lt.write_text(mesh, debug=True)
+            text, vtk = lt.write_text(mesh, debug=True)
         except Exception as ex:
             self.fail("write-failed", f"write raised {type(ex).__name__}: {ex}")
         try:
@@ -150,7 +173,7 @@ class Checker:
                 for src, table in (("operation.point_array", self.points), ("generator", self.known_points)):
                     if x in table:
                         d = float(np.max(np.abs(pos - table[x][k])))
-                        if d > TOL + HALF_ULP:
+                        if d > TOL + self.half:
                             self.fail("corner-position",
                                       f"hex {bi} corner {k} -> vertex {h.ids[k]} at {tuple(pos)}, the operation's corner "
                                       f"({src}) is at {tuple(table[x][k])}", source=src, entity=self.case["entities"][x[0]]["kind"])
@@ -159,7 +182,7 @@ class Checker:
                 self.fail("unused-vertex", f"vertex {v} is not a corner of any written block")
             pos = np.asarray(bmd.vertices[v].pos)
             best = min(float(np.max(np.abs(pos - self.points[x][k]))) for x, k in users[v])
-            if best > HALF_ULP:
+            if best > self.half:
                 self.fail("vertex-not-a-model-point", f"vertex {v} at {tuple(pos)} is {best:g} away from the nearest corner using it")
             want = set()
             for x, k in users[v]:
@@ -316,7 +339,7 @@ class Checker:
         for e in hemis:
             ent = case["entities"][e]
             c = np.asarray(ent["ap1"]) + np.asarray(ent.get("translate", [0, 0, 0]), dtype=float)
-            match = [nm for nm in auto if _sphere_matches(bmd.geometry[nm], c, ent["radius"])]
+            match = [nm for nm in auto if _sphere_matches(bmd.geometry[nm], c, ent["radius"], self.half)]
             if not match:
                 self.fail("sphere-geometry", f"no searchableSphere with centre {tuple(c)} radius {ent['radius']} among {auto}")
             for label in sorted(self.sphere_face_label.get(e, set())):
@@ -356,7 +379,7 @@ class Checker:
         if len(vtk.points) != len(bmd.vertices):
             self.fail("vtk-points", f"VTK lists {len(vtk.points)} points, the dictionary {len(bmd.vertices)} vertices")
         for i, (p, v) in enumerate(zip(vtk.points, bmd.vertices)):
-            if max(abs(a - b) for a, b in zip(p, v.pos)) > HALF_ULP:
+            if max(abs(a - b) for a, b in zip(p, v.pos)) > self.half:
                 self.fail("vtk-points", f"VTK point {i} {p} differs from vertex {i} {v.pos}")
         if vtk.cells != [list(h.ids) for h in bmd.blocks]:
             self.fail("vtk-cells", "VTK cells differ from the hex entries", vtk=vtk.cells[:3], hexes=[h.ids for h in bmd.blocks[:3]])
@@ -372,7 +395,8 @@ def _is_number(tok: str) -> bool:
         return False
 
 
-def _sphere_matches(props: List[List[str]], centre: np.ndarray, radius: float) -> bool:
+def _sphere_matches(props: List[List[str]], centre: np.ndarray, radius: float, half: float) -> bool:
+    """centre printed with 8 decimals; the radius is a difference of two positions, so it carries their rounding"""
     d = {p[0]: p[1:] for p in props}
     if d.get("type") != ["searchableSphere"] or "radius" not in d:
         return False
@@ -380,8 +404,8 @@ def _sphere_matches(props: List[List[str]], centre: np.ndarray, radius: float) -
     if not cen:
         return False
     vals = [float(t) for t in tokenize(cen[0]) if t not in "()"]
-    return (len(vals) == 3 and float(np.max(np.abs(np.asarray(vals) - centre))) <= HALF_ULP + 1e-9
-            and abs(float(d["radius"][0]) - radius) <= 1e-9 * radius)
+    return (len(vals) == 3 and float(np.max(np.abs(np.asarray(vals) - centre))) <= half + 1e-9
+            and abs(float(d["radius"][0]) - radius) <= 1e-9 * radius + (half - HALF_ULP))
 
 
 def check_program(case, ctx: Ctx) -> None:
@@ -400,6 +424,13 @@ def check_program(case, ctx: Ctx) -> None:
     ctx.label(*sorted({"ent:" + e["kind"] for e in case["entities"]}))
     if m.deleted:
         ctx.label("has-delete")
+    if any(case["entities"][e]["kind"] == "hemisphere" for e, _ in m.deleted):
+        ctx.label("hemisphere-partly-deleted")
+    ctx.label("finish:" + case.get("finish", "write"))
+    if case.get("finish", "write") in ("clear+assemble", "backport") and ck.bmd.faces:
+        ctx.label("reassembled-with-projected-faces")
+    if case.get("shift"):
+        ctx.label("far-from-origin" if max(abs(v) for v in case["shift"]) >= 1e5 else "shift-1e3")
     if m.skip_modify:
         ctx.label("modify-skipped")
     if any(len({x for x, _ in u}) >= 2 for u in ck.users.values()):
